@@ -179,6 +179,8 @@ def _batch(args):
             out["harness_errors"].append({"run_index": i, "error": res["harness_error"], "choices": res["choices"]})
             continue
         out["steps"] += res.get("steps", 0)
+        out["step_frac"] = max(out.get("step_frac", 0.0), res.get("step_frac", 0.0))
+        out["idle_frac"] = max(out.get("idle_frac", 0.0), res.get("idle_frac", 0.0))
         out["vtime"] += res.get("vtime", 0.0)
         out["leaked"] += res.get("leaked", 0)
         for k, v in res.get("probes", {}).items():
@@ -212,6 +214,8 @@ def _merge(agg, r):
     agg["n"] += r["n"]
     agg["digests"].update(r["digests"])
     agg["steps"] += r["steps"]
+    agg["step_frac"] = max(agg.get("step_frac", 0.0), r.get("step_frac", 0.0))
+    agg["idle_frac"] = max(agg.get("idle_frac", 0.0), r.get("idle_frac", 0.0))
     agg["vtime"] += r["vtime"]
     agg["nontrivial"] += r["nontrivial"]
     agg["selftest_pairs"] += r["selftest_pairs"]
@@ -845,6 +849,8 @@ def check(prop, tier="quick", seed=0, runs=None, jobs=None, max_s=None, out=sys.
             "runs_per_hour": int(agg["n"] / wall * 3600) if wall > 0 else 0,
             "simulated_seconds": round(agg["vtime"], 3),
             "scheduler_steps": agg["steps"],
+            "largest_fraction_of_the_step_cap_used_by_a_returning_run": round(agg.get("step_frac", 0.0), 3),
+            "largest_fraction_of_the_no_progress_budget_used_by_a_returning_run": round(agg.get("idle_frac", 0.0), 3),
             "fault_counts_fired": agg["faults"],
             "probes": agg["probes"],
             "workload_mix": agg["extra"],
